@@ -168,10 +168,114 @@ class Inliner:
             awaits = any(isinstance(n, (ast.Await, ast.AsyncWith, ast.AsyncFor)) for n in walk_own(f.node))
             calls_pkg = any(c.kind in ("func", "class") for _, c in self.a.func_calls(f))
             if has_raise and not has_value_return and not mutates and not awaits:
-                continue
+                # a shared guard (several call sites) is an anchor of the guard rules and stays;
+                # a guard extracted for a single caller is just a moved block
+                if self._call_site_count(f) != 1:
+                    continue
             # docstring-only / trivial bodies are not worth it
             out[id(f)] = f
         return out
+
+    def _call_site_count(self, g: FuncInfo) -> int:
+        n = 0
+        for mod in self.p.modules.values():
+            for node in ast.walk(mod.tree):
+                if isinstance(node, ast.Call):
+                    if (isinstance(node.func, ast.Name) and node.func.id == g.name) or (isinstance(node.func, ast.Attribute) and node.func.attr == g.name):
+                        n += 1
+        return n
+
+    # ------------------------------------------------------------------ pure single-expression helpers (expression position)
+    _PURE_NODES = (ast.BoolOp, ast.Compare, ast.UnaryOp, ast.Name, ast.Attribute, ast.Constant, ast.Subscript, ast.Tuple, ast.And, ast.Or, ast.Not,
+                   ast.Eq, ast.NotEq, ast.Is, ast.IsNot, ast.In, ast.NotIn, ast.Lt, ast.LtE, ast.Gt, ast.GtE, ast.Load, ast.IfExp, ast.BinOp, ast.Add, ast.Sub)
+    _PURE_CALLS = {"isinstance", "issubclass", "callable", "len", "isclass", "iscoroutine", "isawaitable", "iscoroutinefunction", "get_origin", "type", "hasattr", "getattr"}
+
+    def _pure_expr(self, e) -> bool:
+        for n in ast.walk(e):
+            if isinstance(n, ast.Call):
+                if not (isinstance(n.func, ast.Name) and n.func.id in self._PURE_CALLS):
+                    return False
+            elif isinstance(n, (ast.keyword,)):
+                continue
+            elif not isinstance(n, self._PURE_NODES):
+                return False
+        return True
+
+    def inline_predicates(self) -> bool:
+        """Replace calls of private helpers whose whole body is `return <pure expression>`."""
+        preds = {}
+        for f in self.p.all_functions():
+            if f.parent is not None or f.is_lambda or f.is_async or not f.name.startswith("_") or f.name.startswith("__"):
+                continue
+            if set(f.decorators) - {"staticmethod"}:
+                continue
+            body = [s for s in f.node.body if not (isinstance(s, ast.Expr) and isinstance(s.value, ast.Constant))]
+            if len(body) == 1 and isinstance(body[0], ast.Return) and body[0].value is not None and self._pure_expr(body[0].value):
+                a = f.node.args
+                if a.vararg or a.kwarg or a.posonlyargs or a.kwonlyargs:
+                    continue
+                preds[id(f)] = f
+        if not preds:
+            return False
+        changed = False
+        outer = self
+
+        class T(ast.NodeTransformer):
+            def __init__(self, func):
+                self.func = func
+
+            def visit_FunctionDef(self, node):
+                return node if node is not self.func.node else self.generic_visit(node)
+
+            visit_AsyncFunctionDef = visit_FunctionDef
+
+            def visit_Lambda(self, node):
+                return node
+
+            def visit_Call(self, node):
+                nonlocal changed
+                self.generic_visit(node)
+                c = outer.a.callee(self.func, node)
+                if c.kind != "func" or id(c.func) not in preds or c.func is self.func:
+                    return node
+                g = c.func
+                params = [x.arg for x in g.node.args.args]
+                is_method = g.cls is not None and "staticmethod" not in g.decorators
+                mapping = {}
+                if is_method:
+                    if not isinstance(node.func, ast.Attribute) or not _simple(node.func.value):
+                        return node
+                    mapping[params[0]] = node.func.value
+                    params = params[1:]
+                if len(node.args) + len(node.keywords) != len(params) or any(isinstance(x, ast.Starred) for x in node.args):
+                    return node
+                for i, arg in enumerate(node.args):
+                    mapping[params[i]] = arg
+                for kw in node.keywords:
+                    if kw.arg not in params:
+                        return node
+                    mapping[kw.arg] = kw.value
+                if not all(_simple(v) for v in mapping.values()):
+                    return node
+                body = [s for s in g.node.body if not (isinstance(s, ast.Expr) and isinstance(s.value, ast.Constant))]
+                expr = _Renamer({}, mapping).visit(copy.deepcopy(body[0].value))
+                changed = True
+                outer.log.append(f"predicate {g.qualname} -> {self.func.qualname}:{node.lineno}")
+                return ast.copy_location(expr, node)
+
+        for f in list(self.p.all_functions()):
+            if f.is_lambda or f.parent is not None:
+                continue
+            T(f).visit(f.node)
+            # nested functions
+        for f in list(self.p.all_functions()):
+            if f.parent is not None and not f.is_lambda:
+                T(f).visit(f.node)
+        if changed:
+            for mod in self.p.modules.values():
+                ast.fix_missing_locations(mod.tree)
+            self._remove_dead_helpers(preds)
+        return changed
 
     # ------------------------------------------------------------------ one call site
     def _expand(self, caller: FuncInfo, stmt, call: ast.Call, awaited: bool, g: FuncInfo, mode: str, target):
@@ -259,6 +363,16 @@ class Inliner:
     # ------------------------------------------------------------------ driver
     def run(self, rounds: int = 3) -> bool:
         changed_any = False
+        from .normalize import normalize_tree
+
+        if self.inline_predicates():
+            changed_any = True
+            for mod in self.p.modules.values():
+                normalize_tree(mod.tree)
+            self.p.reindex()
+            from .effects import Analysis as _A
+
+            self.a = _A(self.p)
         for _ in range(rounds):
             cands = self.candidates()
             if not cands:
@@ -280,6 +394,8 @@ class Inliner:
                 break
             changed_any = True
             self._remove_dead_helpers(cands)
+            for mod in self.p.modules.values():
+                normalize_tree(mod.tree)
             self.p.reindex()
             from .effects import Analysis
 
